@@ -387,6 +387,19 @@ def _structural():
                          (': NE/4', 'plain'), (' and', 'dangling-and')):
             out.append((f"T154N-R97W Secs {secs}{tail}", f"seclist:{k}:{tw}"))
             out.append((f"NE/4 of Secs {secs}{tail}", f"seclist-first:{k}:{tw}"))
+        # ... each item with its own keyword ('Sec. 1, Sec. 2, ...'; 'Lot 1,
+        # Lot 2, ...')
+        for word in ('Sec.', 'Sect.', 'Section', 'Secs', '§'):
+            kw_secs = ', '.join(f"{word} {i}" for i in range(1, k + 1))
+            for tail, tw in ((': NE/4, T155N-R97W Sec 1: ALL', 'colon+twprge'),
+                             (', T155N-R97W', 'comma-twprge'),
+                             (' NE/4', 'no-colon')):
+                out.append((f"T154N-R97W {kw_secs}{tail}",
+                            f"kw-seclist:{word}:{k}:{tw}"))
+        for word in ('Lot', 'L.', 'Lt.'):
+            kw_lots = ', '.join(f"{word} {i}" for i in range(1, k + 1))
+            out.append((f"T154N-R97W Sec 1: {kw_lots} of Sec 5, T155N-R97W",
+                        f"kw-lotlist:{word}:{k}"))
         for tail, tw in ((' of Sec 5, T155N-R97W', 'of-sec'), (', NE/4', 'aliq'),
                          (' and', 'dangling-and'), (' (40.00', 'open-acreage'),
                          (' N/2 W/2 T5N', 'twp-lookalike')):
